@@ -367,7 +367,7 @@ def _call(mon, case):
     if fn == "pad_variable":
         lens, pad = _long(case["lens"]), _long(case["pad"]).reshape(2, case["N"])
         if module:
-            return mon.lib(fn, lambda: M.PadVariable(case["mode"], value)(x, lens, pad), documented=doc), None
+            return mon.lib(fn, lambda: LY.travelled(M.PadVariable(case["mode"], value), x.numel(), x.dim())(x, lens, pad), documented=doc), None
         return mon.lib(fn, lambda: F.pad_variable(x, lens, pad, case["mode"], value), documented=doc), None
     if fn == "chunk_by_slices":
         lens = None if case["lens"] is None else _long(case["lens"])
@@ -376,7 +376,7 @@ def _call(mon, case):
             sl = sl.t().contiguous().t()  # the (N, 2) bounds as a view of a (2, N) tensor (how lists of starts/ends get stacked)
             mon.cls("slices_transposed_view")
         if module:
-            call = lambda: M.ChunkBySlices(case["mode"], value)(x, sl, lens)
+            call = lambda: LY.travelled(M.ChunkBySlices(case["mode"], value), x.numel(), x.dim())(x, sl, lens)
         else:
             call = lambda: F.chunk_by_slices(x, sl, lens, case["mode"], value)
         first = mon.lib(fn, call, documented=doc)
@@ -394,7 +394,7 @@ def _call(mon, case):
             if not case.get("noncontig"):
                 x, mask = x.contiguous(), mask.contiguous()
         if module:
-            return mon.lib(fn, lambda: M.PadMaskedSequence(bf, value)(x, mask), documented=doc), None
+            return mon.lib(fn, lambda: LY.travelled(M.PadMaskedSequence(bf, value), x.numel(), x.dim())(x, mask), documented=doc), None
         return mon.lib(fn, lambda: F.pad_masked_sequence(x, mask, bf, value), documented=doc), None
     # random_shift
     import pydrobert.torch._img as IM
